@@ -1550,6 +1550,23 @@ def check_c17(tier, seed, res):
         elif res.evaluations % 9 == 0:
             res.sample(bytes.fromhex(line.split(" ")[2]).decode("latin1") + "  =>  " + i[:90])
     res.extra["address_forms"] = forms
+    # validateAddrPort against its model (coq/Addr.v): exhaustive short strings over the alphabet that
+    # decides its branches, named forms, random edits
+    acases = gen_cases("addrv", seed, 300 if tier == "quick" else 20000, tier)
+    am, ai = differential(acases, wd("C17"), "addrv")
+    acc = {"OK": 0, "ERR": 0}
+    for k, line in case_map(acases).items():
+        res.evaluations += 1
+        i = ai.get(k); m = am.get(k)
+        if i is None or m is None:
+            res.mismatch(line, str(i), str(m)); continue
+        res.nontrivial.add(line.split(" ")[2])
+        acc[i.split(" ")[0]] = acc.get(i.split(" ")[0], 0) + 1
+        if i == "PANIC":
+            res.violation("panic:validateAddrPort", line, i, m, "validateAddrPort panicked")
+        elif i != m:
+            res.mismatch(line, i, m)
+    res.extra["validateAddrPort_outcomes"] = acc
     # the test directory on a port in use: Ready never becomes true, Start must not wait for it for ever
     out = run_vh("c17dirstart busy -\n")
     r = parse_results(out).get(("c17dirstart", "busy"), "HARNESS no result")
